@@ -340,6 +340,11 @@ def seeded(args):
             print(f"{i:28s} OUT-OF-REACH (documented): {meta['out_of_reach'][:150]}")
             out_of_reach += 1
             continue
+        if meta.get("not_judged_by_design") and i not in args:
+            # the change moves behaviour the property leaves open, or depends on invalid input: a check that fired here would be over-strict
+            print(f"{i:28s} NOT-JUDGED (by design): {meta['not_judged_by_design'][:150]}")
+            out_of_reach += 1
+            continue
         sc = Scratch()
         try:
             rc, out, err = sh(["git", "apply", "--unsafe-paths", "--directory", sc.repo, os.path.join(base, i, "patch.diff")], cwd="/")
@@ -374,7 +379,7 @@ def seeded(args):
         merged = json.load(open(lr)) if (args and os.path.exists(lr)) else {}
         merged.update(out_all)
         json.dump(merged, open(lr, "w"), indent=1)
-    print(f"seeded: {len(ids)} changes, {missed} misses, {out_of_reach} documented as out of reach ({time.time() - t0:.0f}s)")
+    print(f"seeded: {len(ids)} changes, {missed} misses, {out_of_reach} documented as out of reach or not judged by design ({time.time() - t0:.0f}s)")
     return 1 if missed else 0
 
 
